@@ -214,6 +214,16 @@ def applyStep (Z : Pat) (s : Step) : Pat := fun i j =>
 
 def runPat (Z : Pat) (l : List Step) : Pat := l.foldl applyStep Z
 
+/-- an `n × n` pattern as data, and back (the identity on indices `< n`) -/
+def tabulatePat (n : Nat) (Z : Pat) : Array (Array Bool) :=
+  Array.ofFn (n := n) fun i => Array.ofFn (n := n) fun j => Z i.val j.val
+def ofTablePat (a : Array (Array Bool)) : Pat := fun i j => (a.getD i #[]).getD j false
+
+/-- `runPat` with the pattern tabulated after every step (what the driver evaluates; the state is data, so
+the evaluation of a long run stays polynomial) -/
+def runPatTab (n : Nat) (a : Array (Array Bool)) (l : List Step) : Array (Array Bool) :=
+  l.foldl (fun a s => tabulatePat n (applyStep (ofTablePat a) s)) a
+
 /-- nothing known -/
 def noZeros : Pat := fun _ _ => false
 
@@ -227,14 +237,14 @@ def lowerDone (n : Nat) (Z : Pat) : Bool :=
 section exact
 variable {K : Type} [Add K] [Mul K] [Sub K] [Neg K] [Zero K] [One K] [DecidableEq K]
 
-/-- materialise an `n × n` matrix so that closures are not re-evaluated -/
-def memo (n : Nat) (U : CMat K) : CMat K :=
-  let a : Array (Array (Cx K)) := Array.ofFn (n := n) fun i => Array.ofFn (n := n) fun j => U i.val j.val
-  fun i j => (a.getD i #[]).getD j 0
+/-- an `n × n` matrix as data, and back (the identity on indices `< n`) -/
+def tabulate (n : Nat) (U : CMat K) : Array (Array (Cx K)) :=
+  Array.ofFn (n := n) fun i => Array.ofFn (n := n) fun j => U i.val j.val
+def ofTable (a : Array (Array (Cx K))) : CMat K := fun i j => (a.getD i #[]).getD j 0
 
 /-- one step of `rectangular`/`triangular` (`mz = false`) or `rectangular_MZ` (`mz = true`) when the branch is
 not generic; returns the branch taken and the new matrix -/
-def exactStep (mz : Bool) (n : Nat) (U : CMat K) (s : Step) : Option (Branch × CMat K) :=
+def exactStep (mz : Bool) (U : CMat K) (s : Step) : Option (Branch × CMat K) :=
   let target := U s.tr s.tc
   let partner := if s.rowMix then U (s.tr - 1) s.tc else U s.tr (s.tc + 1)
   let br := nullBranch target partner
@@ -244,16 +254,16 @@ def exactStep (mz : Bool) (n : Nat) (U : CMat K) (s : Step) : Option (Branch × 
     let blk : Blk K :=
       if s.rowMix then (if mz then blkMZ c sn 1 else blkT c sn 1)
       else (if mz then blkMZi c sn 1 else blkTi c sn 1)
-    some (br, memo n (if s.rowMix then leftMix blk s.p (s.p + 1) U else rightMix U blk s.p (s.p + 1)))
+    some (br, if s.rowMix then leftMix blk s.p (s.p + 1) U else rightMix U blk s.p (s.p + 1))
 
-/-- run a schedule; `none` as soon as a generic branch would be needed -/
-def runExact (mz : Bool) (n : Nat) (U : CMat K) : List Step → Option (List Branch × CMat K)
-  | [] => some ([], U)
+/-- run a schedule on tabulated matrices; `none` as soon as a generic branch would be needed -/
+def runExact (mz : Bool) (n : Nat) (a : Array (Array (Cx K))) : List Step → Option (List Branch × Array (Array (Cx K)))
+  | [] => some ([], a)
   | s :: l =>
-    match exactStep mz n U s with
+    match exactStep mz (ofTable a) s with
     | none => none
     | some (br, U') =>
-      match runExact mz n U' l with
+      match runExact mz n (tabulate n U') l with
       | none => none
       | some (brs, V) => some (br :: brs, V)
 
